@@ -1,4 +1,8 @@
-CONSTANT MaxLen = 3
+CONSTANTS
+ MaxLen = 3
+ LongLen = 9
+ NLong = 40
 INIT Init
 NEXT Next
+INVARIANT Inv
 CHECK_DEADLOCK FALSE
